@@ -7,6 +7,9 @@ import Gql.Proofs.ClientSchema
 import Gql.Proofs.ClientNoCrash
 import Gql.Proofs.IntroConform
 import Gql.Generated.IntrospectionTypes
+import Gql.Types.ClientText
+import Gql.Proofs.ClientDefaults
+import Gql.Props.C08
 /-!
 # C18 — Introspection describes the schema truthfully and can rebuild it
 
@@ -18,7 +21,9 @@ options off removes from the full result; `Gql.Types.typeLookup` — `__type(nam
 — build_client_schema.py including the forcing of its thunks by `GraphQLSchema.__init__`.
 
 Parameters instead of models: `printV` (`print_ast` of a default value) and `env.parseV`
-(`parse_const_value`) with the law `parseV (printV v) = ok v` as a hypothesis — that law is property C08;
+(`parse_const_value`) with the law `parseV (printV v) = ok v` as a hypothesis — that law is property C08, and
+the section "Default values as text" below instantiates both parameters with the printer / parser models and
+proves it (`client_roundtrip_text`, hypothesis `DefaultsWf` instead of the law);
 `env.reserved` (the standard scalar / introspection types), `env.locOk` (`DirectiveLocation` member names),
 `env.limit` (recursion limit).  Not modelled: the executor over the meta-schema (that the query text
 validates and executes without errors is observed on the implementation by checks/c18.py).
@@ -153,6 +158,86 @@ theorem conforms_rejects :
       revert this
       decide
 
+/-! ### Default values as text: the print/parse hypothesis discharged by C08
+
+`client_roundtrip` takes the law `parseV (printV v) = ok v` as a hypothesis.  Here the two parameters are the
+printer model (`print_ast`, `Gql.Syntax.printAst`) and the parser model (`parse_const_value`,
+`Gql.Syntax.parseSource .constValue`) themselves (`Gql/Types/ClientText.lean`), a default value is its literal
+tree (`Gql.Syntax.Ast`), and the law is C08's `roundtrip_value`. -/
+
+open Gql.Text Gql.Syntax in
+/-- The tree is a well-formed constant value literal: the tree of a `Val` (C08's typed value tree) that is
+`Val.wf true` — valid names and number texts, enum values other than `true`/`false`/`null`, strings of Unicode
+scalar values, block-representable block strings, no variables. -/
+def ConstLiteral (d : Ast) : Prop := ∃ v : Val, Val.wf true v ∧ d = v.toAst
+
+/-- Every default-value literal of the schema (arguments of fields, input fields, arguments of directives)
+is a well-formed constant literal.  The real code guarantees it for a schema built from SDL text: the literal
+is what `parse_const_value` / `parse_value_literal(is_const=True)` returned (`parsed_default_wf` below: every
+tree the parser model returns on text without surrogate code points is a `ConstLiteral`); for a
+programmatically built schema the literal is the result of `ast_from_value`, which builds Int / Float texts
+from Python numbers, names from enum value names and input field names (`assert_name` / schema validation
+checks them), and string values from `str`s.  Not decidable as stated (number texts and block
+representability are existential), but equivalent to a statement about the finite list `s.defaults`
+(`Gql.Types.defaultsSat_iff`). -/
+def DefaultsWf (s : Schema Gql.Syntax.Ast) : Prop := ∀ d ∈ s.defaults, ConstLiteral d
+
+open Gql.Text Gql.Syntax in
+/-- Where `DefaultsWf` comes from for SDL-built schemas (C08 `parse_wf_value`): whatever `parse_const_value`
+returns on a source text without surrogate code points — any flags, any `max_tokens` — is a well-formed
+constant literal. -/
+theorem parsed_default_wf (cfg : Cfg) (src : List Nat) (hsrc : ∀ x ∈ src, isSurr x = false) (d : Ast)
+    (h : parseSource .constValue cfg src = .ok d) : ConstLiteral d :=
+  Gql.Props.C08.parse_wf_value cfg true src hsrc d h
+
+open Gql.Text Gql.Syntax in
+/-- The `defaultValue` string of the introspection result is what the printer model prints, and the printer
+does not crash on a well-formed constant literal (so the totalisation in `printDefault` is never used under
+`DefaultsWf`). -/
+theorem printDefault_ok (w : Widths) (d : Ast) (hd : ConstLiteral d) :
+    printAst w d = .ok (printDefault w d) := by
+  obtain ⟨v, _, rfl⟩ := hd
+  simp [printDefault, printAst_val]
+
+open Gql.Text Gql.Syntax in
+/-- **The hypothesis `hpp` of `client_roundtrip`, proved** (C08 `roundtrip_value` at the CONST VALUE entry
+point): for all widths with `object ≥ 4` (true of the generated ones), any parser flags, no `max_tokens`
+(`build_client_schema` calls `parse_const_value(default_value_str)` with no options), the text the printer
+model prints for a well-formed constant literal is parsed by the real parser model back to that literal. -/
+theorem default_text_roundtrip (w : Widths) (hw : 4 ≤ w.object) (cfg : Cfg) (hm : cfg.maxTokens = none)
+    (d : Ast) (hd : ConstLiteral d) : parseDefaultText cfg (printDefault w d) = .ok d := by
+  obtain ⟨v, hwf, rfl⟩ := hd
+  obtain ⟨text, hp, hparse⟩ := Gql.Props.C08.roundtrip_value w hw cfg hm true v hwf
+  have ht : printDefault w v.toAst = text := by simp [printDefault, hp]
+  have hparse' : parseSource .constValue cfg text = .ok v.toAst := by simpa using hparse
+  simp [parseDefaultText, ht, hparse']
+
+open Gql.Syntax in
+/-- **C18 client round trip with default values as TEXT, no print/parse hypothesis.**  For every well-formed
+schema (`WFSchema`, as in `client_roundtrip`) whose default-value literals are well-formed constant literals
+(`DefaultsWf`): the full-options introspection result — every `defaultValue` the string printed by the printer
+model (`printDefault_ok`) — fed to `build_client_schema`, which re-parses every such string with the real
+parser model of `parse_const_value`, gives back exactly the schema.  All widths with `object ≥ 4`, any parser
+flags, no `max_tokens`; any reserved-type list, location predicate, recursion limit.  (Outside the model, as
+before: `ast_from_value` / `value_from_ast` between the Python default value and its literal.) -/
+theorem client_roundtrip_text (w : Widths) (hw : 4 ≤ w.object) (cfg : Cfg) (hm : cfg.maxTokens = none)
+    (reserved : List (TypeDef Ast)) (locOk : List Nat → Bool) (limit depth : Nat) (s : Schema Ast)
+    (hwf : WFSchema (textEnv cfg reserved locOk limit) depth s) (hd : DefaultsWf s) :
+    buildClient (textEnv cfg reserved locOk limit) (introspect (printDefault w) s (Options.full depth)) = .ok s :=
+  Gql.Types.client_roundtrip_on (textEnv cfg reserved locOk limit) (printDefault w) ConstLiteral
+    (fun d hd => default_text_roundtrip w hw cfg hm d hd) depth s hwf
+    ((Gql.Types.defaultsSat_iff ConstLiteral s).2 hd)
+
+open Gql.Syntax in
+/-- Corollary ("… and introspects to the same result again", text level): the rebuilt schema has the same
+introspection result under every option set, `defaultValue` strings included. -/
+theorem reintrospect_text (w : Widths) (hw : 4 ≤ w.object) (cfg : Cfg) (hm : cfg.maxTokens = none)
+    (reserved : List (TypeDef Ast)) (locOk : List Nat → Bool) (limit depth : Nat) (s : Schema Ast)
+    (hwf : WFSchema (textEnv cfg reserved locOk limit) depth s) (hd : DefaultsWf s) :
+    ∃ c, buildClient (textEnv cfg reserved locOk limit) (introspect (printDefault w) s (Options.full depth)) = .ok c ∧
+      ∀ o, introspect (printDefault w) c o = introspect (printDefault w) s o :=
+  ⟨s, client_roundtrip_text w hw cfg hm reserved locOk limit depth s hwf hd, fun _ => rfl⟩
+
 /-! ### Non-vacuity: a concrete well-formed schema
 
 `schema { query: Q }  interface I { f(x: In = <v> @deprecated(reason: "d")): [Int!] }
@@ -195,5 +280,65 @@ example : buildClient exEnv (introspect id
         Schema (List Nat)) ⟨false, false, false, false, false, false, false, 9⟩) = .err "TypeError" := by decide
 -- the option enumeration on the concrete schema
 example : (⟨false, true, false, true, false, true, false, 9⟩ : Options) ∈ Options.all 9 := by decide
+
+/-! ### Non-vacuity of the text-level theorems: the same schema with the default literal `[1, { a: B }]` -/
+
+open Gql.Text Gql.Syntax in
+private def tLit : Val := .list [.int [49], .obj [([97], .enum [66])]]
+open Gql.Text Gql.Syntax in
+private def tD : Ast := tLit.toAst
+private def tArg : InputValue Gql.Syntax.Ast :=
+  ⟨[120], some [100], .named [73, 110] .inputObject, some tD, some [100]⟩
+private def tF : Field Gql.Syntax.Ast := ⟨[102], none, [tArg], .list (.nonNull (.named [73, 110, 116] .scalar)), none⟩
+private def tE : Field Gql.Syntax.Ast := ⟨[101], some [], [], .named [69] .enum, some [100]⟩
+private def tInt : TypeDef Gql.Syntax.Ast := ⟨.scalar, [73, 110, 116], some [100], some [100], [], [], [], [], [], false⟩
+private def tTypes : List (TypeDef Gql.Syntax.Ast) :=
+  [⟨.interface, [73], some [100], none, [tF], [], [], [], [], false⟩,
+   ⟨.object, [81], none, none, [tF, tE], [.named [73] .interface], [], [], [], false⟩,
+   ⟨.enum, [69], none, none, [], [], [], [⟨[65], none, some [100]⟩], [], false⟩,
+   ⟨.inputObject, [73, 110], none, none, [], [], [], [],
+      [⟨[120], none, .named [73, 110, 116] .scalar, some (Gql.Text.Val.toAst (.int [49])), some [100]⟩], true⟩,
+   tInt]
+private def tSchema : Schema Gql.Syntax.Ast :=
+  ⟨some [100], some ([81], .object), none, none, tTypes,
+   [⟨[100], none, true, some [100], [[81, 85, 69, 82, 89]], [tArg]⟩]⟩
+private def tEnv : ClientEnv Gql.Syntax.Ast := textEnv {} [tInt] (fun l => l = [81, 85, 69, 82, 89]) 50
+
+open Gql.Text in
+theorem wf_one : Val.wf true (.int [49]) :=
+  ⟨⟨[], [49], [], []⟩, ⟨Or.inl rfl, by decide, Or.inl rfl, Or.inl rfl⟩, rfl, rfl⟩
+open Gql.Text in
+theorem wf_tLit : Val.wf true tLit :=
+  ⟨wf_one, ⟨by decide, ⟨by decide, by decide, by decide, by decide⟩, trivial⟩, trivial⟩
+
+-- the schema is well-formed (decided with the hand-written `DecidableEq Ast`, reserved-type comparison included)
+example : WFSchema tEnv 9 tSchema := by decide
+-- its default literals are well-formed constant literals
+theorem tSchema_defaultsWf : DefaultsWf tSchema := by
+  intro d hd
+  have : d = tD ∨ d = Gql.Text.Val.toAst (.int [49]) := by
+    simp [Schema.defaults, ivsDefaults, tSchema, tTypes, tF, tE, tInt, tArg] at hd
+    rcases hd with h | h | h <;> simp [h]
+  rcases this with rfl | rfl
+  · exact ⟨tLit, wf_tLit, rfl⟩
+  · exact ⟨_, wf_one, rfl⟩
+-- the generated widths qualify, the default `Cfg` has no `max_tokens`: `client_roundtrip_text` applies
+example : buildClient tEnv (introspect (printDefault Gql.Syntax.Widths.generated) tSchema (Options.full 9))
+    = .ok tSchema :=
+  client_roundtrip_text Gql.Syntax.Widths.generated (by decide) {} rfl [tInt] _ 50 9 tSchema (by decide)
+    tSchema_defaultsWf
+-- the `defaultValue` string of the model is the printed text `[1, { a: B }]`
+example : printDefault Gql.Syntax.Widths.generated tD = Gql.Syntax.S "[1, { a: B }]" := by
+  rw [show tD = tLit.toAst from rfl]
+  have := printDefault_ok Gql.Syntax.Widths.generated tLit.toAst ⟨tLit, wf_tLit, rfl⟩
+  rw [Gql.Text.printAst_val] at this
+  rw [← Out.ok.inj this]
+  decide
+-- `DefaultsWf` discriminates: a variable is no constant literal
+example : ¬ ConstLiteral (Gql.Text.Val.toAst (.var [97])) := by
+  rintro ⟨v, hwf, h⟩
+  cases v <;> simp [Gql.Text.Val.toAst] at h
+  rename_i n
+  simp [Gql.Text.Val.wf] at hwf
 
 end Gql.Props.C18
